@@ -5,6 +5,7 @@ package main
 import (
 	"fmt"
 	"go/constant"
+	"go/token"
 	"go/types"
 	"strings"
 
@@ -220,6 +221,81 @@ func (ra *roAnalysis) flagMayWrite(f *ssa.Function, site ssa.Instruction, v ssa.
 			return false, b + " on an edge that is not guarded by ReadOnly == false"
 		}
 		return false, ""
+	case *ssa.Extract, *ssa.Call:
+		// the flag comes out of a moss helper (`flag, perm := openFlagAndPerm(opts.ReadOnly)`): every return of the
+		// helper whose flag carries write bits must be unreachable when one of its bool parameters is true, and the
+		// call site must pass ReadOnly (a load of the field) for that parameter
+		var call *ssa.Call
+		idx := 0
+		if e, isE := x.(*ssa.Extract); isE {
+			call, _ = e.Tuple.(*ssa.Call)
+			idx = e.Index
+		} else {
+			call, _ = x.(*ssa.Call)
+		}
+		if call == nil {
+			return false, "flag operand is " + accessPath(v)
+		}
+		h := call.Call.StaticCallee()
+		if h == nil || h.Pkg != ra.c.Moss || h.Blocks == nil {
+			return false, "flag is the result of " + calleeName(call)
+		}
+		bad := ""
+		eachInstr(h, func(i ssa.Instruction) {
+			r, isR := i.(*ssa.Return)
+			if !isR || bad != "" || idx >= len(r.Results) {
+				return
+			}
+			for _, og := range origins(r.Results[idx]) {
+				n, isK := constInt(og)
+				if !isK {
+					bad = "flag computed in " + h.Name() + " is not a constant"
+					return
+				}
+				if n&ra.writeMsk == 0 {
+					continue
+				}
+				// write bits: only when a ReadOnly-bound parameter is false
+				guarded := false
+				for pi, p := range h.Params {
+					if bt, isB := p.Type().Underlying().(*types.Basic); !isB || bt.Kind() != types.Bool {
+						continue
+					}
+					if pi >= len(call.Call.Args) {
+						continue
+					}
+					if fv, _ := loadedField(call.Call.Args[pi]); fv != ra.fRO {
+						continue
+					}
+					pp := p
+					if mustPrecede(h, r, func(ssa.Instruction) bool { return false }, func(from, to *ssa.BasicBlock, cond ssa.Value, onTrue bool) bool {
+						neg := false
+						for {
+							u, ok := cond.(*ssa.UnOp)
+							if !ok || u.Op != token.NOT {
+								break
+							}
+							neg = !neg
+							cond = u.X
+						}
+						if cond != ssa.Value(pp) {
+							return false
+						}
+						val := onTrue
+						if neg {
+							val = !val
+						}
+						return !val // the parameter == false edge
+					}) {
+						guarded = true
+					}
+				}
+				if !guarded {
+					bad = fmt.Sprintf("flag %#x with write/create bits is returned by %s on a path that is not tied to ReadOnly == false", n, h.Name())
+				}
+			}
+		})
+		return false, bad
 	case *ssa.BinOp:
 		// OR of constants is folded by the compiler front end; anything else is unknown
 		return false, "flag is computed (" + accessPath(v) + ")"
